@@ -379,6 +379,9 @@ impl DOPRI5 {
                         nonstiff = 0;
                         iasti += 1;
                         if iasti == 15 {
+                            // the step that triggered the exit is discarded (x, y are not advanced and
+                            // it is not handed to SolOut), so it does not count as accepted
+                            steps.accepted -= 1;
                             status = Status::ProbablyStiff;
                             break;
                         }
